@@ -332,6 +332,8 @@ Definition spec_meth (readmem : aspace -> N -> rdres) (m : meth) (addr : N) : op
   | KCustom _ _ => None
   | KLinear off => Some (spec_linear (m_target m) off addr)
   | KPgt ras root mask pf =>
+      (* a form with more levels than the architecture has is "not implemented" *)
+      if (pf_max_fields (pte_format pf) <? length (fieldsz pf))%nat then Some (NOTIMPL, None) else
       match arch_of (pte_format pf) with
       | Some af => Some (arch_walk readmem af (m_target m) mask (fieldsz pf) addr ras root)
       | None => None
